@@ -72,6 +72,7 @@ OVERLAY_PKGS = {
     "tan": "internal/tan",
     "root": ".",
     "tools": "tools",
+    "server": "internal/server",
 }
 
 
